@@ -51,9 +51,11 @@ CLAIMED['C06'] = dict(
          'rank_adjustment >= 0, priorities >= 0, non-negative demands and reservations), C06_alloc_order (inside an '
          'allocation: priority, running before pending, first-come), C06_rank_decision + C06_boost + C06_cap (boosted '
          'rank <=> utilisation before the instance negative and within the cap; unplaced rank <=> utilisation after '
-         'exceeds cap-1); scheduler constants regenerated from the source (C06_constants). Partial: preservation of '
-         'each sub-allocation\'s internal order by the parent merge and priority-0-last within a rank are decided '
-         'by the correspondence (queue in every cycle digest) and the oracle only.',
+         'exceeds cap-1); C06_merge_keeps_order (for every allocation at any depth of the tree its own instances appear '
+         'in the final queue in exactly their private app-key order: the parent merges never reorder them), '
+         'C06_alloc_order_before, C06_zero_last (priority-0 instances come after all others of the same rank, at every '
+         'depth); scheduler constants regenerated from the source (C06_constants). Every clause of the statement is '
+         'now a theorem on the model.',
     note=SCHED_NOTE,
     technique='Rocq proof (induction over the nested allocation tree, k-way merge lemmas) + per-operation digest '
               'correspondence of the real scheduler objects (cases.v/vm_compute)',
